@@ -109,4 +109,52 @@ example : ((Sess.init true [1]).run [.add (rt 1 1 7 1) false, .add (rt 1 1 8 1) 
     wire by the first generator of a session: the peer's table is still empty). -/
 example : ((Sess.init true [1]).run [.add (rt 1 1 7 1) false, .add (rt 1 1 8 1) false,
     .del 1 1]).1.drain.2 = [] := by decide
+theorem flushed_not_pending (r : Rib) : r.flushed.pending = false := by
+  simp [Rib.flushed, Rib.pending]
+
+/-- after a drain nothing is in flight and nothing is queued -/
+theorem drain_quiet (s : Sess) : s.drain.1.inflight = none ∧ s.drain.1.rib.pending = false := by
+  unfold Sess.drain Sess.finish Sess.step
+  cases hi : s.inflight with
+  | none =>
+    simp only [hi]
+    cases hp : s.rib.pending with
+    | false => simp [hi, hp]
+    | true => simp [hi, hp, flushed_not_pending]
+  | some evs =>
+    simp only [hi]
+    cases hp : s.rib.pending with
+    | false => simp [hp]
+    | true => simp [hp, flushed_not_pending]
+
+/-- **Drained means drained.** Once the outgoing queue has drained, ExaBGP puts nothing more on
+    the wire until a new operation arrives: a second drain — and any number of further generator
+    steps (`start`, `next`) — sends nothing and leaves the reported Adj-RIB-Out as it is. The
+    converged table of `c04_converges` is therefore final, not a point the stream passes through. -/
+theorem c04_drained_is_silent (s : Sess) :
+    s.drain.1.drain.2 = [] ∧ s.drain.1.drain.1.rib = s.drain.1.rib := by
+  obtain ⟨hi, hp⟩ := drain_quiet s
+  generalize s.drain.1 = d at hi hp
+  unfold Sess.drain Sess.finish Sess.step
+  simp [hi, hp]
+
+theorem c04_drained_steps_silent (s : Sess) (ops : List Op)
+    (hops : ∀ op ∈ ops, op = .start ∨ op = .next) :
+    (s.drain.1.run ops).2 = [] ∧ (s.drain.1.run ops).1.rib = s.drain.1.rib := by
+  obtain ⟨hi, hp⟩ := drain_quiet s
+  generalize s.drain.1 = d at hi hp
+  induction ops generalizing d with
+  | nil => simp [Sess.run]
+  | cons op ops ih =>
+    have hstep : d.step op = (d, []) := by
+      rcases hops op List.mem_cons_self with h | h <;> subst h <;> simp [Sess.step, hi, hp]
+    simp only [Sess.run, hstep]
+    have := ih (fun o ho => hops o (List.mem_cons_of_mem _ ho)) d hi hp
+    simpa using this
+
+
+/-- non-vacuity: an announce queued at session start is sent by the first drain, nothing by the second -/
+example : ((Sess.init true [1]).run [.add { nlri := 7, fam := 1, attr := 3, nh := 9 } false]).1.drain.2
+    = [Ev.ann { nlri := 7, fam := 1, attr := 3, nh := 9 }] := by decide
+
 end Exa.Props.C04
